@@ -75,6 +75,16 @@ def regenerate():
                              f"(* translator failed: {status[key]} *)\n"
                              "Definition translator_failed : False := I.\n")
     try:
+        from translator import blocks as T6
+        text, _ = T6.translate(REPO)
+        write_if_changed(os.path.join(GEN, "BlocksGen.v"), text)
+        status["T-blocks"] = None
+    except Exception as e:
+        status["T-blocks"] = f"{type(e).__name__}: {e}"
+        write_if_changed(os.path.join(GEN, "BlocksGen.v"),
+                         f"(* translator failed: {status['T-blocks']} *)\n"
+                         "Definition translator_failed : False := I.\n")
+    try:
         from translator import tables as T34
         text = T34.translate(REPO)
         write_if_changed(os.path.join(GEN, "Tables.v"), text)
